@@ -223,6 +223,7 @@ pub fn run(p: &Params, rep: &mut Report) {
         let n = if p.thorough { 20_000 } else { 8_000 };
         super::deep::probe(rep, "re-literal", n, &super::deep::expect_re_literal(n), "compile", p.seed);
     }
+    for_firstchar_programs(p, rep, p.size(25, 250), |prog, seed, rep| check_program(prog, seed, p.thorough, rep));
     for_max_loop_programs(p, rep, p.size(6, 60), |prog, seed, rep| check_program(prog, seed, p.thorough, rep));
     let stride = if p.thorough { 1 } else { 2 };
     for_tiny_programs(p, rep, stride, p.size(150, 3000), |prog, seed, rep| check_program(prog, seed, p.thorough, rep));
